@@ -1450,6 +1450,32 @@ def _(e):
     return "gcp_opt", ttb.gcp_opt, (X, 2, Objectives.GAUSSIAN, SGD(max_iters=1, epoch_iters=1, printitn=0)), {"printitn": 0, "mask": ttb.tensor(np.ones(e.shape))}, X, {}
 
 
+for _form in ("ktensor", "list"):
+    for _what in ("components", "rows", "modes"):
+        def _mkG(form, what):
+            @row(f"gcp_opt:guess-({form})-with-other-{what}", (2, 3))
+            def _(e, form=form, what=what):
+                from pyttb.gcp.handles import Objectives
+                from pyttb.gcp.optimizers import LBFGSB, SGD
+
+                X = _adata(e)
+                shp = list(e.shape)
+                R = 2
+                if what == "components":
+                    Rg = [1, 3][int(e.rng.integers(0, 2))]
+                else:
+                    Rg = R
+                    if what == "rows":
+                        shp[int(e.rng.integers(0, e.N))] += 1
+                    else:
+                        shp = shp[:-1] if (e.N > 2 and int(e.rng.integers(0, 2))) else shp + [2]
+                fm = [np.abs(e.rng.standard_normal((s_, Rg))) + 0.1 for s_ in shp]
+                guess = ttb.ktensor([f.copy() for f in fm]) if form == "ktensor" else [f.copy() for f in fm]
+                opt = LBFGSB(maxiter=1) if int(e.rng.integers(0, 2)) else SGD(max_iters=1, epoch_iters=1, printitn=0)
+                return "gcp_opt", ttb.gcp_opt, (X, R, Objectives.GAUSSIAN, opt), {"printitn": 0, "init": guess}, X, {}
+        _mkG(_form, _what)
+
+
 @row("gcp_opt:unsupported-optimizer", (2,))
 def _(e):
     from pyttb.gcp.handles import Objectives
